@@ -269,7 +269,7 @@ type hspace struct {
 }
 
 func (h *hspace) size() int64 {
-	return int64(len(hWidths)*len(hMargins)*len(hMargins)*len(hMin)*len(hMax)*2) * int64(len(h.padSets)) * int64(h.containers)
+	return int64(len(hWidths)*len(hMargins)*len(hMargins)*len(hMin)*len(hMax)*3) * int64(len(h.padSets)) * int64(h.containers)
 }
 
 func (h *hspace) build(i int64) *docSpec {
@@ -285,7 +285,12 @@ func (h *hspace) build(i int64) *docSpec {
 	t.w = hWidths[pick(len(hWidths))]
 	t.maxw = hMax[pick(len(hMax))]
 	t.minw = hMin[pick(len(hMin))]
-	t.borderBox = pick(2) == 1
+	switch pick(3) {
+	case 1:
+		t.borderBox = true
+	case 2:
+		t.paddingBox = true
+	}
 	ps := h.padSets[pick(len(h.padSets))]
 	t.padL, t.padR, t.borL, t.borR = px(ps[0]), px(ps[1]), ps[2], ps[3]
 	cont := pick(h.containers)
@@ -312,46 +317,159 @@ func (h *hspace) build(i int64) *docSpec {
 	return &docSpec{pageW: 200, body: body}
 }
 
+// ---- vertical sizing product ---------------------------------------------------------------------
+
+// §10.5, §10.7 and the box-sizing conversion of the height values: full product of height x
+// min-height x max-height x box-sizing x padding/border set x content on one box t.
+//
+// The padding/border sets are what the conversion from a border-box / padding-box value to a
+// content-box value subtracts: the sum of the VERTICAL paddings (and borders). Sets whose
+// vertical and horizontal sums differ tell the two axes apart; sets with padding only on one
+// axis reach the "nothing to subtract" shortcut of each axis; sets whose vertical sum exceeds a
+// menu value reach the floor at zero. The values meet every order of content height (0, 10,
+// 20), height, min-height and max-height: max-height below the content, min-height above it,
+// min-height above max-height (min-height wins).
+var (
+	sHeights = []dim{auto, px(15), pct(50)}
+	sMinH    = []dim{none, px(12), px(40), pct(50)}
+	sMaxH    = []dim{none, px(8), px(30), pct(50)}
+	sWidths  = []dim{auto, px(100)}
+	sMarginB = []dim{zero, px(10)}
+)
+
+// padding-top, padding-bottom, border-top, border-bottom, padding-left, padding-right, border-left, border-right
+type padSet8 [8]float64
+
+var sPadSetsQuick = []padSet8{
+	{0, 0, 0, 0, 0, 0, 0, 0},
+	{5, 5, 1, 1, 5, 5, 1, 1},   // the same on both axes (12 / 12)
+	{5, 5, 1, 1, 30, 30, 1, 1}, // padding: 5px 30px (12 / 62)
+	{20, 2, 3, 0, 2, 1, 0, 1},  // tall (25 / 4)
+	{2, 3, 1, 2, 0, 0, 0, 0},   // vertical only (8 / 0)
+	{0, 0, 0, 0, 15, 15, 3, 4}, // horizontal only (0 / 37)
+	{0, 4, 0, 0, 9, 0, 0, 0},   // padding only (4 / 9): border-box = padding-box
+	{0, 0, 3, 0, 0, 0, 0, 7},   // border only (3 / 7): padding-box = content-box
+}
+
+const (
+	scEmpty = iota // no content
+	scLine         // one 10px line
+	scChild        // a child block of height 20px
+	nSContents
+)
+
+// sspace is the full product of the vertical sizing menu on one box t, inside a container.
+type sspace struct {
+	padSets    []padSet8
+	containers int
+}
+
+func (h *sspace) size() int64 {
+	return int64(len(sHeights)*len(sMinH)*len(sMaxH)*3*nSContents*len(sWidths)*len(sMarginB)) * int64(len(h.padSets)) * int64(h.containers)
+}
+
+func (h *sspace) build(i int64) *docSpec {
+	pick := func(n int) int {
+		r := int(i % int64(n))
+		i /= int64(n)
+		return r
+	}
+	t := newBox("t")
+	// fastest varying first
+	t.maxh = sMaxH[pick(len(sMaxH))]
+	t.minh = sMinH[pick(len(sMinH))]
+	t.h = sHeights[pick(len(sHeights))]
+	switch pick(3) {
+	case 1:
+		t.borderBox = true
+	case 2:
+		t.paddingBox = true
+	}
+	content := pick(nSContents)
+	ps := h.padSets[pick(len(h.padSets))]
+	t.padT, t.padB, t.borT, t.borB = px(ps[0]), px(ps[1]), ps[2], ps[3]
+	t.padL, t.padR, t.borL, t.borR = px(ps[4]), px(ps[5]), ps[6], ps[7]
+	t.w = sWidths[pick(len(sWidths))]
+	t.mb = sMarginB[pick(len(sMarginB))]
+	cont := pick(h.containers)
+	switch content {
+	case scLine:
+		t.text = txBefore
+	case scChild:
+		k := newBox("k")
+		k.h = px(20)
+		t.kids = []*boxSpec{k}
+	}
+	z := newBox("z")
+	z.text = txBefore
+	body := newBox("body")
+	switch cont {
+	case 0:
+		// the height of the containing block is not specified explicitly: percentages of it
+		// are auto / 0 / none
+		body.kids = []*boxSpec{t, z}
+	case 1:
+		p := newBox("p")
+		p.h = px(60)
+		p.kids = []*boxSpec{t}
+		body.kids = []*boxSpec{p, z}
+	case 2:
+		p := newBox("p")
+		p.padT, p.borB, p.ml = px(4), 2, px(20)
+		p.kids = []*boxSpec{t}
+		body.kids = []*boxSpec{p, z}
+	}
+	return &docSpec{pageW: 200, body: body}
+}
+
 // ---- cross term --------------------------------------------------------------------------------
 
 // crossDev is one horizontal (or percentage / box-sizing) deviation applied to one box of a
 // vertical case.
 type crossDev struct {
-	name  string
-	slot  int // vertical prop it overrides, or -1
-	apply func(b *boxSpec)
+	name     string
+	slot     int // vertical prop it overrides, or -1
+	apply    func(b *boxSpec)
+	leafOnly bool // only on a box without child blocks
 }
 
 var crossMenu = []crossDev{
-	{"width:50px", -1, func(b *boxSpec) { b.w = px(50) }},
-	{"width:50%", -1, func(b *boxSpec) { b.w = pct(50) }},
-	{"width:200px", -1, func(b *boxSpec) { b.w = px(200) }},
-	{"margin-left:auto", -1, func(b *boxSpec) { b.ml = auto }},
-	{"margin-left:7px", -1, func(b *boxSpec) { b.ml = px(7) }},
-	{"margin-left:-3px", -1, func(b *boxSpec) { b.ml = px(-3) }},
-	{"margin-left:10%", -1, func(b *boxSpec) { b.ml = pct(10) }},
-	{"margin-right:auto", -1, func(b *boxSpec) { b.mr = auto }},
-	{"margin-right:7px", -1, func(b *boxSpec) { b.mr = px(7) }},
-	{"margin-right:-3px", -1, func(b *boxSpec) { b.mr = px(-3) }},
-	{"margin-right:10%", -1, func(b *boxSpec) { b.mr = pct(10) }},
-	{"padding-left:3px;padding-right:5px", -1, func(b *boxSpec) { b.padL, b.padR = px(3), px(5) }},
-	{"border-left:2px;border-right:4px", -1, func(b *boxSpec) { b.borL, b.borR = 2, 4 }},
-	{"min-width:30px", -1, func(b *boxSpec) { b.minw = px(30) }},
-	{"min-width:80px", -1, func(b *boxSpec) { b.minw = px(80) }},
-	{"max-width:30px", -1, func(b *boxSpec) { b.maxw = px(30) }},
-	{"max-width:80px", -1, func(b *boxSpec) { b.maxw = px(80) }},
-	{"box-sizing:border-box", -1, func(b *boxSpec) { b.borderBox = true }},
-	{"width:50px;margin:0 auto", -1, func(b *boxSpec) { b.w, b.ml, b.mr = px(50), auto, auto }},
+	{"width:50px", -1, func(b *boxSpec) { b.w = px(50) }, false},
+	{"width:50%", -1, func(b *boxSpec) { b.w = pct(50) }, false},
+	{"width:200px", -1, func(b *boxSpec) { b.w = px(200) }, false},
+	{"margin-left:auto", -1, func(b *boxSpec) { b.ml = auto }, false},
+	{"margin-left:7px", -1, func(b *boxSpec) { b.ml = px(7) }, false},
+	{"margin-left:-3px", -1, func(b *boxSpec) { b.ml = px(-3) }, false},
+	{"margin-left:10%", -1, func(b *boxSpec) { b.ml = pct(10) }, false},
+	{"margin-right:auto", -1, func(b *boxSpec) { b.mr = auto }, false},
+	{"margin-right:7px", -1, func(b *boxSpec) { b.mr = px(7) }, false},
+	{"margin-right:-3px", -1, func(b *boxSpec) { b.mr = px(-3) }, false},
+	{"margin-right:10%", -1, func(b *boxSpec) { b.mr = pct(10) }, false},
+	{"padding-left:3px;padding-right:5px", -1, func(b *boxSpec) { b.padL, b.padR = px(3), px(5) }, false},
+	{"border-left:2px;border-right:4px", -1, func(b *boxSpec) { b.borL, b.borR = 2, 4 }, false},
+	{"min-width:30px", -1, func(b *boxSpec) { b.minw = px(30) }, false},
+	{"min-width:80px", -1, func(b *boxSpec) { b.minw = px(80) }, false},
+	{"max-width:30px", -1, func(b *boxSpec) { b.maxw = px(30) }, false},
+	{"max-width:80px", -1, func(b *boxSpec) { b.maxw = px(80) }, false},
+	{"box-sizing:border-box", -1, func(b *boxSpec) { b.borderBox = true }, false},
+	{"box-sizing:padding-box", -1, func(b *boxSpec) { b.paddingBox = true }, false},
+	{"width:50px;margin:0 auto", -1, func(b *boxSpec) { b.w, b.ml, b.mr = px(50), auto, auto }, false},
 	// one auto margin, and the specified one alone makes the sum exceed the containing width
 	// (§10.3.3: the auto margin is treated as zero, margin-right gives way)
-	{"width:60px;margin-left:auto;margin-right:150px", -1, func(b *boxSpec) { b.w, b.ml, b.mr = px(60), auto, px(150) }},
-	{"width:60px;margin-left:150px;margin-right:auto", -1, func(b *boxSpec) { b.w, b.ml, b.mr = px(60), px(150), auto }},
-	{"width:60px;margin-left:150px;margin-right:150px", -1, func(b *boxSpec) { b.w, b.ml, b.mr = px(60), px(150), px(150) }},
-	{"margin-top:10%", pMT, func(b *boxSpec) { b.mt = pct(10) }},
-	{"margin-bottom:10%", pMB, func(b *boxSpec) { b.mb = pct(10) }},
-	{"margin-top:auto", pMT, func(b *boxSpec) { b.mt = auto }},
-	{"padding-top:10%", pTop, func(b *boxSpec) { b.padT = pct(10) }},
-	{"height:50%", pH, func(b *boxSpec) { b.h = pct(50) }},
+	{"width:60px;margin-left:auto;margin-right:150px", -1, func(b *boxSpec) { b.w, b.ml, b.mr = px(60), auto, px(150) }, false},
+	{"width:60px;margin-left:150px;margin-right:auto", -1, func(b *boxSpec) { b.w, b.ml, b.mr = px(60), px(150), auto }, false},
+	{"width:60px;margin-left:150px;margin-right:150px", -1, func(b *boxSpec) { b.w, b.ml, b.mr = px(60), px(150), px(150) }, false},
+	{"margin-top:10%", pMT, func(b *boxSpec) { b.mt = pct(10) }, false},
+	{"margin-bottom:10%", pMB, func(b *boxSpec) { b.mb = pct(10) }, false},
+	{"margin-top:auto", pMT, func(b *boxSpec) { b.mt = auto }, false},
+	{"padding-top:10%", pTop, func(b *boxSpec) { b.padT = pct(10) }, false},
+	{"height:50%", pH, func(b *boxSpec) { b.h = pct(50) }, false},
+	// §10.7 on a box without child blocks, among the collapsing margins of the lattice: a box
+	// with a non-zero min-height is not collapsed through; max-height cuts its line of text or
+	// its height. (On a box with child blocks min-height meets "the bottom margin of a last
+	// in-flow child and of its parent": left to the vertical sizing product, without margins.)
+	{"min-height:12px", -1, func(b *boxSpec) { b.minh = px(12) }, true},
+	{"max-height:8px", -1, func(b *boxSpec) { b.maxh = px(8) }, true},
 }
 
 // ---- unit table ----------------------------------------------------------------------------------
@@ -360,6 +478,7 @@ const (
 	spV = iota // vertical deviation lattice
 	spH        // horizontal product
 	spX        // cross term
+	spS        // vertical sizing product
 )
 
 type unit struct {
@@ -368,7 +487,7 @@ type unit struct {
 	shape  uint16
 	subset []int8
 	box    int8  // spX: the box that receives the cross deviation
-	lo, hi int64 // spH: index range
+	lo, hi int64 // spH, spS: index range
 }
 
 func (u unit) String() string { return fmt.Sprintf("%d/%d/%d/%v", u.space, u.menu, u.shape, u.subset) }
